@@ -98,7 +98,9 @@ func main() {
 	// informer handlers: the function literals of the constructor that escape
 	handlers := map[string]bool{}
 	for n, f := range facts {
-		if strings.Contains(n, "NewMultiCIDRRangeAllocator$") && f.Entry != "" {
+		// function values stored into a data structure (the ResourceEventHandlerFuncs tables), wherever the registration
+		// code lives; the constructor's own literals as before
+		if strings.HasPrefix(f.Entry, "function value stored") || (strings.Contains(n, "NewMultiCIDRRangeAllocator$") && f.Entry != "") {
 			handlers[n] = true
 		}
 	}
